@@ -76,6 +76,16 @@ def c05(pid, tier, seed, selftest=False):
         if diff:
             rep.notes.append("real encryptor and specification terms differ on %d scenarios (see C06): %s" % (len(diff), diff[:3]))
     rep.extra["scenarios_by_class"] = classes
+    # the reported identity at the tool: `kestrel decrypt` of alice's file with keyrings of 400+ entries in which alice's
+    # entry is first, last or absent; the name (or "Unknown key" + encoding) printed must be the authenticated key's
+    import checks_cli
+    w = checks_cli.World(pid, tpl, seed)
+    cfgs = [{"cmd": "decrypt", "cause": "none", "prior": "absent", "inp": inp, "outp": outp, "kr": kr, "long": lng,
+             "alias": not lng, "sender": snd}
+            for snd in ("first", "last", "absent") for inp in ("file", "stdin") for outp in ("file", "stdout")
+            for kr in ("opt", "env") for lng in (False, True)]
+    cevs = checks_cli.run_configs(rep, pid, "cli-sender", w, cfgs, ["C05_"])
+    rep.extra["cli_sender_reports"] = {k: sum(1 for e in cevs if e["named"] == k) for k in set(e["named"] for e in cevs)}
     rep.exhaustive = True
     return rep.finish()
 
@@ -321,7 +331,7 @@ def c07(pid, tier, seed, selftest=False):
     thorough = tier == "thorough"
     # ProjIndInv: every reachable state, projected to integers, satisfies the invariant Apalache proves inductive
     cs_.check_model(rep, pid, "enc-mc", "MC_EncLoop", st.enc_constants(cs=2, maxlen=7 if thorough else 5, hdr="HdrSmall", faults=1),
-                    st.ENC_INVARIANTS + ["ProjIndInv"], cs_.ENC_ACTIONS)
+                    st.ENC_INVARIANTS + st.ENC_REFINEMENT, cs_.ENC_ACTIONS)
     n = 4 if thorough else 3
     res = run_tlc(pid, "fresh-mc", "Fresh", fresh_cfg(n, 2, False, ["AllFresh", "NonceOnce", "Emit"]), workers=1, timeout=300)
     rep.add_model("fresh-mc", res, "histories of %d operations: AllFresh, NonceOnce" % n)
